@@ -17,7 +17,7 @@ ASSUMPTIONS = [
 ]
 EXHAUSTIVE = {"flag": False, "scope": "sampled grids; every cell text of the dictionary is used in every column position class"}
 ANCHOR_FUNCS = ["csv:read_csv", "csv:_read_csv_from_file", "csv:_infer_type"]
-REQUIRED_STRATA = {"csv-raw": 40, "csv": 600, "csv-empty": 10, "csv-cellrule": 60}
+REQUIRED_STRATA = {"csv-reuse": 40, "csv-long": 10, "csv-raw": 40, "csv": 600, "csv-empty": 10, "csv-cellrule": 60}
 
 
 def cell_rule(text):
@@ -61,11 +61,18 @@ def run_csv(chk, spec, raw_text=None):
 			o = call(serif.read_csv, io.StringIO(text, newline=""), delimiter=spec["delimiter"], has_header=spec["has_header"])
 	else:
 		o, text = common.do_csv(spec)
+	judge_table(chk, spec, o, text)
+
+
+def judge_table(chk, spec, o, text):
+	from ..core import Out
+	if not isinstance(o, Out):
+		o = Out(True, o, None)
 	grid = spec["grid"]
 	ncols = spec["ncols"]
 	names = list(spec["header"]) if spec["header"] is not None else [f"col_{i}" for i in range(ncols)]
 	exp_cols = [[cell_rule(row[c]) if c < len(row) else None for row in grid] for c in range(ncols)]
-	stratum = ("csv-cellrule" if spec.get("pattern") == "cellrule" else ("csv-raw" if spec.get("pattern") == "raw" else "csv")) if grid else "csv-empty"
+	stratum = "csv-reuse" if "between" in spec else "csv-long" if spec.get("pattern") == "long" else ("csv-cellrule" if spec.get("pattern") == "cellrule" else ("csv-raw" if spec.get("pattern") == "raw" else "csv")) if grid else "csv-empty"
 	chk.judged(stratum, ("csv", spec["delimiter"], spec["has_header"], spec.get("pattern"), spec["via"], len(grid) > 0,
 		tuple(sorted({cell_class(row[c]) if c < len(row) else "pad" for row in grid})) if False else tuple(tuple(sorted({cell_class(row[c]) if c < len(row) else "pad" for row in grid})) for c in range(min(ncols, 3)))))
 	if not o.ok:
@@ -143,9 +150,69 @@ def run_raw(chk, spec):
 	run_csv(chk, s2, raw_text=text)
 
 
-RUNNERS = {"csv": run_csv, "raw": run_raw}
+def run_reuse(chk, spec):
+	"""the same source read more than once: the caller's file object stays open and positioned by the caller, a second read of the same path gives
+	a table built from the file as it is now, independent of what was done to the first result"""
+	import io
+	import os
+	import tempfile
+	from ..bind import serif
+	text = common.csv_text(spec)
+	kw = dict(delimiter=spec["delimiter"], has_header=spec["has_header"])
+	chk.judged("csv-reuse", ("reuse", spec["via"], spec["between"], spec["delimiter"]))
+	if spec["via"] == "fileobj":
+		f = io.StringIO(text, newline="")
+		a = call(serif.read_csv, f, **kw)
+		if not a.ok:
+			return
+		if f.closed:
+			chk.fail("read_csv reads the caller's file object and leaves it to the caller", "csv/closed-the-callers-file-object", f"read_csv(f) closed f ({text!r})")
+			return
+		f.seek(0)
+		b = call(serif.read_csv, f, **kw)
+		first, second = a.value, b
+	else:
+		fd, path = tempfile.mkstemp(prefix="serifmon-", suffix=".csv")
+		try:
+			with os.fdopen(fd, "w", encoding="utf-8", newline="") as fh:
+				fh.write(text)
+			a = call(serif.read_csv, path, **kw)
+			if not a.ok:
+				return
+			first = a.value
+			snap_first = M.snap_table(first) if isinstance(first, Table) else None
+			if spec["between"] == "edit-result" and isinstance(first, Table) and len(first) and first.cols():
+				call(first.__setitem__, (0, 0), first.cols()[0]._underlying[-1])
+				call(first.rename_column, first.column_names()[0], "renamed_by_caller")
+				call(lambda: first.cols()[-1].__setitem__(0, None))
+			elif spec["between"] == "rewrite-file":
+				st = os.stat(path)
+				g = [list(r) for r in spec["grid"]]
+				k = 0 if spec["has_header"] else 1      # (a header-less file takes its width from the first record: leave it first)
+				if len(g) - k > 1:
+					g[k], g[-1] = g[-1], g[k]      # same size, other order
+				spec = dict(spec, grid=g)
+				text = common.csv_text(spec)
+				with open(path, "w", encoding="utf-8", newline="") as fh:
+					fh.write(text)
+				os.utime(path, ns=(st.st_atime_ns, st.st_mtime_ns))
+			second = call(serif.read_csv, path, **kw)
+		finally:
+			os.unlink(path)
+	if not second.ok:
+		chk.fail("read_csv reads every well-formed file", f"csv/raises/second-read/{type(second.exc).__name__}", f"second read_csv of the same {spec['via']} ({text!r}) raised {second!r}")
+		return
+	if second.value is first:
+		chk.fail("every read_csv call returns the file's contents as a new table", "csv/second-read-returns-the-first-table", f"read_csv({spec['via']}) twice returned the same Table object")
+		return
+	# the second table is judged like any first read
+	s2 = spec
+	judge_table(chk, s2, second.value, text)
 
-EXTRA_CELLS = ["crlf\r\ninside", "old\rmac", "-2_5", "1__0", "_1", "1_", "+.5e-3", "0b1", "1e400", "NaN", "  -inf ", "٣", "１２", "1 000", " ", "x "]
+
+RUNNERS = {"csv": run_csv, "raw": run_raw, "reuse": run_reuse}
+
+EXTRA_CELLS = ["a\x0bb", "a\x0cb", "1\x0c2", "a\x1cb", "a\x1db", "a\x1eb", "a\x85b", "a\u2028b", "a\u2029b", "crlf\r\ninside", "old\rmac", "-2_5", "1__0", "_1", "1_", "+.5e-3", "0b1", "1e400", "NaN", "  -inf ", "٣", "１２", "1 000", " ", "x "]
 
 
 def run(chk):
@@ -180,3 +247,12 @@ def run(chk):
 	for _ in range(900 if chk.quick() else 6000):
 		spec = common.gen_csv_spec(rng, max_rows=rng.choice([4, 8]))
 		chk.case("csv", spec, "csv-sampled")
+	for _ in range(40 if chk.quick() else 400):
+		chk.case("csv", common.gen_csv_long(rng), "csv-long")
+	for _ in range(120 if chk.quick() else 800):
+		spec = common.gen_csv_spec(rng, max_rows=rng.choice([3, 6]))
+		if not spec["grid"]:
+			continue
+		spec["via"] = rng.choice(["fileobj", "path", "path"])
+		spec["between"] = rng.choice(["nothing", "edit-result", "rewrite-file"]) if spec["via"] == "path" else "seek0"
+		chk.case("reuse", spec, "csv-reuse")
